@@ -405,9 +405,11 @@ func TestC07Lifecycle(t *testing.T) {
 				go func() { newer.srv.SetID(victim.id); close(setDone) }() // blocks until the older session's graceful close ends
 				newer.id = victim.id
 				victim.live = false
-				if !vt.WaitClosed(victim.srv.CloseNotify()) {
+				// the older session's graceful close has begun (it is waiting for its handler; the
+				// close notification comes when the connection is gone, i.e. after the handler)
+				if !vt.WaitUntilFor(vt.LivenessBound, func() bool { return !victim.srv.Health() }) {
 					release()
-					x.fail("%s", vt.Hang("close notification of the session whose id was taken over"))
+					x.fail("%s", vt.Hang("start of the graceful close of the session whose id was taken over"))
 				}
 				switch how {
 				case "cut":
